@@ -324,6 +324,178 @@ def acyclicity_tie(ctx, tables):
     ctx.cov['correspondence']['snip_C14_acyclicity'] = {'cases': n, 'disagreements': dis}
 
 
+# ---------------------------------------------------------------- the theorems about walk_resolve, on the implementation
+def impl_resolved(abbr, cfg):
+    """The abbreviation parsed the way markup.parse does and run through resolve_snippets ONLY (before the
+    transform pass): ('ok', nested forest) with nodes [name, value, repeat, attrs, self_closing, children]."""
+    from emmet.config import Config
+    from emmet.abbreviation import parse as abbreviation
+    from emmet.markup.snippets import resolve_snippets
+    from emmet.abbreviation.tokenizer.tokens import Field
+    from markup_util import classify_exc
+    vts = {'raw': 0, 'singleQuote': 1, 'doubleQuote': 2, 'expression': 3}
+
+    def val(v):
+        if v is None:
+            return None
+        return [('s', t) if isinstance(t, str) else ('f', t.index, t.name) if isinstance(t, Field) else ('?', repr(t)) for t in v]
+
+    def attrs(l):
+        if l is None:
+            return None
+        return [(a.name, val(a.value), vts.get(a.value_type, a.value_type), bool(a.boolean), bool(a.implied), bool(a.multiple))
+                for a in l]
+
+    def nest(n):
+        rp = n.repeat
+        return [n.name, val(n.value), None if rp is None else (rp.count, rp.value, bool(rp.implicit)), attrs(n.attributes),
+                bool(n.self_closing), [nest(c) for c in n.children]]
+    config = Config(copy.deepcopy(cfg))
+    text = config.get('text')
+    try:
+        tree = abbreviation(abbr, {'text': text, 'variables': config.variables, 'options': config.options,
+                                   'max_repeat': config.get('maxRepeat') or config.get('max_repeat'),
+                                   'jsx': bool(config.options.get('jsx.enabled')), 'href': config.options.get('markup.href')})
+        if text:
+            config.user_config['text'] = None
+        resolve_snippets(tree, config)
+    except Exception as e:  # noqa
+        return classify_exc(e)
+    return ('ok', [nest(c) for c in tree.children])
+
+
+def flatten(forest, d=0):
+    out = []
+    for n in forest:
+        out.append((d, n[0], n[1], n[2], n[3], n[4]))
+        out += flatten(n[5], d + 1)
+    return out
+
+
+def attach_deepest_py(forest, kids):
+    """find_deepest: below the end of the last-child chain of the last top-level node."""
+    forest = copy.deepcopy(forest)
+    n = forest[-1]
+    while n[5]:
+        n = n[5][-1]
+    n[5] = n[5] + copy.deepcopy(kids)
+    return forest
+
+
+def on_tops(forest, f):
+    out = copy.deepcopy(forest)
+    for n in out:
+        f(n)
+    return out
+
+
+FRESH = 'zzq'          # a name that is no snippet key: carries the decoration alone
+
+
+def resolved_forms(k, cfg, reverse):
+    """[(form, abbreviation, expected resolved forest)] for the decorated alias k, computed from the resolved
+    forest of the bare alias and of the decoration written on a name that is no alias.  These are
+    C14_alias_attributes / _children / _repeat / _text / _self_closing (alias_merge: for ALL tables, cyclic or not)."""
+    base = impl_resolved(k, cfg)
+    if base[0] != 'ok':
+        return base, []
+    base = base[1]
+    deco = impl_resolved(FRESH + '.extra[t=v]', cfg)
+    kid = impl_resolved(FRESH, cfg)
+    if deco[0] != 'ok' or kid[0] != 'ok' or len(deco[1]) != 1 or deco[1][0][0] != FRESH:
+        return ('ok', base), []
+    extra = deco[1][0][3]
+
+    def add(n):
+        n[3] = (extra + (n[3] or [])) if reverse else ((n[3] or []) + extra)
+    forms = [('attributes', k + '.extra[t=v]', on_tops(base, add)),
+             ('children', k + '>' + FRESH, attach_deepest_py(base, kid[1]) if base else []),
+             ('text', k + '{T}', on_tops(base, lambda n: n.__setitem__(1, [('s', 'T')]))),
+             ('self-closing', k + '/', on_tops(base, lambda n: n.__setitem__(4, True)))]
+    rep = []
+    for i in range(3):
+        rep += on_tops(base, lambda n, i=i: n.__setitem__(2, (3, i, False)))
+    forms.append(('repeat', FRESH + '>' + k + '*3', [[FRESH, None, None, None, False, rep]]))
+    return ('ok', base), forms
+
+
+def resolved_case(k, d, cfg, reverse, self_free):
+    """Oracle on the resolver of the implementation.  Returns (failures, [(abbr, impl result)] for the model tie)."""
+    fails, seen = [], []
+    base, forms = resolved_forms(k, cfg, reverse)
+    seen.append((k, base))
+    for form, abbr, want in forms:
+        got = impl_resolved(abbr, cfg)
+        seen.append((abbr, got))
+        if got != ('ok', want):
+            fails.append((form, abbr, 'resolve_snippets(%r) is not the resolved definition of %r with the %s of the alias applied: got %r, '
+                          'expected %r' % (abbr, k, form, str(flatten(got[1]) if got[0] == 'ok' else got)[:260], str(flatten(want))[:260])))
+    if self_free and base[0] == 'ok':
+        rd = impl_resolved(d, cfg)
+        seen.append((d, rd))
+        if rd != base:
+            fails.append(('alone', k, 'resolve_snippets(%r) differs from resolve_snippets of its definition %r (which does not reach itself): '
+                          '%r against %r' % (k, d, str(flatten(base[1]))[:260], str(flatten(rd[1]) if rd[0] == 'ok' else rd)[:260])))
+    return fails, seen
+
+
+def plain_reading(cfg):
+    """jsx off, no wrap text, no maxRepeat: the definition reads the same in the abbreviation as in the table."""
+    return cfg.get('syntax') not in ('jsx',) and not cfg.get('text') and 'maxRepeat' not in cfg and 'max_repeat' not in cfg \
+        and not (cfg.get('options') or {}).get('jsx.enabled')
+
+
+def resolved_tie(ctx, tables):
+    """Every key of every generated table (and of the built-in tables): the decorated-alias theorems as an oracle on
+    resolve_snippets, and the same resolved trees through the extracted model (SnipRun 7)."""
+    snip = ctx.model('snip')
+    wires, impl = [], []
+    for cfg, table in tables:
+        user = 'snippets' in cfg
+        reverse = bool((cfg.get('options') or {}).get('output.reverseAttributes'))
+        try:
+            ec = enc_config(cfg)
+        except NotModelled:
+            ec = None
+        for k, d in table.items():
+            if mentions_lorem_text(k + d):
+                continue
+            if user:
+                sf = not text_reaches_itself(table, k)
+            else:
+                sf = not parser_reaches_itself(cfg, d)
+            fails, seen = resolved_case(k, d, cfg, reverse, sf and plain_reading(cfg))
+            ctx.count_eval(len(seen))
+            ctx.cover('C14:resolved:%s' % ('self-free' if sf else 'reaches-itself'))
+            for form, abbr, why in fails:
+                ctx.property_failure('C14:resolved:%s|%s' % (abbr, canon_cfg(cfg)), 'C14 ' + why,
+                                     {'component': 'C14-resolved', 'key': k, 'definition': d, 'config': cfg, 'reverse': reverse,
+                                      'self_free': sf and plain_reading(cfg), 'form': form, 'why': why})
+            if ec is not None:
+                for abbr, r in seen:
+                    wires.append([7] + ec + enc_str(abbr))
+                    impl.append((abbr, cfg, r))
+    dis = 0
+    if snip is not None and wires:
+        for (abbr, cfg, r), w in zip(impl, snip.run(wires)):
+            mo = au.decode_tree(w)
+            im = ('ok', flatten(r[1])) if r[0] == 'ok' else r
+            if im[0] == 'recursion':
+                continue
+            if mo != im:
+                dis += 1
+                if dis <= 5:
+                    ctx.say('DISAGREE C14 resolved tree %r cfg=%s\n  impl  %r\n  model %r' % (abbr, canon_cfg(cfg), str(im)[:300], str(mo)[:300]))
+                    ctx.broken.append({'kind': 'correspondence', 'file': 'snip-C14-resolved', 'input': abbr, 'config': canon_cfg(cfg),
+                                       'impl': repr(im)[:300], 'model': repr(mo)[:300]})
+    ctx.cov['correspondence']['snip_C14_resolved_tree'] = {'cases': len(wires), 'disagreements': dis}
+
+
+def mentions_lorem_text(s):
+    return 'lorem' in s.lower()
+
+
+
 # ---------------------------------------------------------------- cases
 def builtin_cases():
     from emmet.snippets import markup_snippets, xsl_snippets, pug_snippets
@@ -528,9 +700,12 @@ def run(ctx):
     if ok:
         au.compare_trees(ctx, 'C14', [(c['a'], c['config']) for c, r in zip(cases, impl) if r[0] == 'ok'])
         from emmet.snippets import markup_snippets, xsl_snippets, pug_snippets
-        acyclicity_tie(ctx, tables + [({'syntax': 'html'}, dict(markup_snippets)),
-                                      ({'syntax': 'xsl'}, {**markup_snippets, **xsl_snippets}),
-                                      ({'syntax': 'pug'}, {**markup_snippets, **pug_snippets})])
+        builtin_tables = [({'syntax': 'html'}, dict(markup_snippets)),
+                          ({'syntax': 'xsl'}, {**markup_snippets, **xsl_snippets}),
+                          ({'syntax': 'pug'}, {**markup_snippets, **pug_snippets}),
+                          ({'syntax': 'html', 'options': {'output.reverseAttributes': True}}, dict(markup_snippets))]
+        acyclicity_tie(ctx, tables + builtin_tables[:3])
+        resolved_tie(ctx, tables + builtin_tables)
     ctx.cov['corpus_cases'] = n_corpus
     ctx.cov['max_resolve_depth_seen'] = maxdepth
     for c, r in list(zip(cases, impl))[-40:-36]:
@@ -553,6 +728,13 @@ def replay(ctx, obj):
             multikey_check(c)
             print('parse_snippets multi-key check: %s' % ('fails' if c.failed else 'holds'))
             return 1 if c.failed else 0
+        if rp.get('component') == 'C14-resolved':
+            fails, _ = resolved_case(rp['key'], rp['definition'], rp['config'], rp['reverse'], rp['self_free'])
+            for form, abbr, why in fails:
+                print('property oracle (resolver): %s' % why)
+            if not fails:
+                print('property oracle (resolver): holds for key %r' % rp['key'])
+            return 1 if fails else 0
         print('replay names a broken obligation, no input: %s' % str(rp)[:300])
         return 1
     why, ra, depth = check_case(rp)
